@@ -579,6 +579,11 @@ func (vfs *MemFS) OpenFile(name string, flag int, perm fs.FileMode) (avfs.File, 
 		}
 	}
 
+	if om&avfs.OpenCreateExcl != 0 {
+		// The name exists: an exclusive create fails whatever the name refers to.
+		return (*MemFile)(nil), &fs.PathError{Op: op, Path: name, Err: vfs.err.FileExists}
+	}
+
 	switch c := child.(type) {
 	case *fileNode:
 		c.mu.Lock()
@@ -586,10 +591,6 @@ func (vfs *MemFS) OpenFile(name string, flag int, perm fs.FileMode) (avfs.File, 
 
 		if !c.checkPermission(om, vfs.User()) {
 			return (*MemFile)(nil), &fs.PathError{Op: op, Path: name, Err: vfs.err.PermDenied}
-		}
-
-		if om&avfs.OpenCreateExcl != 0 {
-			return (*MemFile)(nil), &fs.PathError{Op: op, Path: name, Err: vfs.err.FileExists}
 		}
 
 		if om&avfs.OpenTruncate != 0 {
